@@ -266,6 +266,7 @@ def check(model: Model, run: Run) -> None:
     # ------------------------------------------------------------------ R6
     run.rule('C14.R6', 'line reassembly and order: both readers keep the unterminated tail unconditionally after the split loop, cap the buffer, split on newline; commands enter the deque with append and leave with popleft', floor=5)
     _r6_lines(model, run)
+    _r6_one_per_turn(model, run)
 
 
 def _witness(model: Model, cnt: Counter, fi: FuncInfo) -> list[str]:
@@ -422,6 +423,29 @@ def _r5_matcher(model: Model, run: Run) -> None:
         )
     else:
         run.ok(short(fi.qualname), 'only negative exits inside the term loop')
+    # a term matches as a whole term: delimited on BOTH sides (`10.0.0.1` must not select 10.0.0.10)
+    from ..alpha import Loc
+
+    ml_ = Loc(model, fi)
+    ops_ = []
+    for n in walk_no_nested(fi.node):
+        if isinstance(n, ast.Call) and dotted(n.func) in ('re.search', 're.match', 're.fullmatch', 're.compile') and n.args:
+            pat = ml_.resolve(n.args[0])
+            consts = [v.value for v in pat.values if isinstance(v, ast.Constant)] if isinstance(pat, ast.JoinedStr) else ([pat.value] if isinstance(pat, ast.Constant) else [])
+            escaped = isinstance(pat, ast.JoinedStr) and all(isinstance(v, ast.Constant) or (isinstance(v.value, ast.Call) and dotted(v.value.func) == 're.escape') for v in pat.values)
+            left = bool(consts) and str(consts[0]).startswith(('(^|', '^', '\\b', '(?:^|', '(?<!'))
+            right = bool(consts) and str(consts[-1]).endswith(('$|\\s|,)', '$)', '$', '\\b', '|,)', '(?!\\S)')) and isinstance(pat, ast.JoinedStr) and isinstance(pat.values[-1], ast.Constant)
+            ops_.append((n, left and right and escaped, 'regular expression %s' % norm(pat)[:50]))
+        if isinstance(n, ast.Compare) and len(n.ops) == 1 and isinstance(n.ops[0], (ast.In, ast.NotIn)) and model.type_of(fi.module, n.comparators[0]) == 'builtins.str':
+            needle = ml_.resolve(n.left)
+            both = isinstance(needle, ast.JoinedStr) and len(needle.values) >= 3 and isinstance(needle.values[0], ast.Constant) and isinstance(needle.values[-1], ast.Constant) and str(needle.values[0].value)[-1:] in ' ,' and str(needle.values[-1].value)[:1] in ' ,'
+            ops_.append((n, both, 'substring test %s' % norm(n)[:50]))
+        if isinstance(n, ast.Call) and isinstance(n.func, ast.Attribute) and n.func.attr in ('startswith', 'endswith', 'find', 'count') and model.type_of(fi.module, n.func.value) == 'builtins.str' and n.args and ml_.depends_on(n.args[0], [a.arg for a in fi.node.args.args[:1]]):
+            ops_.append((n, False, 'prefix / substring test %s' % norm(n)[:50]))
+    if not ops_:
+        run.cannot('match_neighbor: how a term is compared with the peer name was not understood')
+    for n, good, what in ops_:
+        run.check(good, fi.qualname, 'a selector term matches only as a whole, delimited on both sides (%s)' % what, fi.loc(n), 'without a delimiter after the term `neighbor 10.0.0.1` also selects 10.0.0.10 and `peer-as 6501` also AS 65010: the command changes routes of peers it did not name')
     # match_neighbors: yields only peers for which some description matched
     mn = model.func(CMD + 'limit.match_neighbors')
     ys = [y for y in walk_no_nested(mn.node) if isinstance(y, ast.Yield)]
@@ -478,3 +502,27 @@ def _r6_lines(model: Model, run: Run) -> None:
     s_app = any(isinstance(c, ast.Call) and isinstance(c.func, ast.Attribute) and c.func.attr == 'append' and dotted(c.func.value) == 'self._async' for c in walk_no_nested(sched.node))
     r_pop = [c for c in walk_no_nested(runa.node) if isinstance(c, ast.Call) and isinstance(c.func, ast.Attribute) and dotted(c.func.value) == 'self._async' and c.func.attr in ('pop', 'popleft')]
     run.check(s_app and r_pop and all(c.func.attr == 'popleft' for c in r_pop), 'exabgp.reactor.asynchronous.ASYNC', 'callbacks: append on schedule, popleft on run', sched.loc(), 'scheduled callbacks must run in command order')
+
+
+def _r6_one_per_turn(model: Model, run: Run) -> None:
+    """received_async hands ONE buffered command to the reactor per call: the reactor runs the scheduled callbacks (which
+    write the answers of announce / withdraw) only after the loop over received_async(), so draining the backlog in one
+    call lets immediate answers (version, error, reset) overtake the answers of earlier commands"""
+    fi = model.funcs.get(PROCESSES + '.received_async')
+    if fi is None:
+        run.cannot('Processes.received_async vanished')
+        return
+    run.analysed(fi)
+    from ..flow import parent_map as _pm
+
+    pm = _pm(fi.node)
+    ys = [y for y in walk_no_nested(fi.node) if isinstance(y, (ast.Yield, ast.YieldFrom))]
+    looped = []
+    for y in ys:
+        p = pm.get(id(y))
+        while p is not None and p is not fi.node:
+            if isinstance(p, (ast.For, ast.While, ast.AsyncFor)):
+                looped.append(y)
+                break
+            p = pm.get(id(p))
+    run.check(bool(ys) and not looped and not any(isinstance(y, ast.YieldFrom) for y in ys), fi.qualname, 'one buffered command per call (%d yield, %d inside a loop)' % (len(ys), len(looped)), fi.loc(looped[0]) if looped else fi.loc(), 'the whole backlog is handed over in one call: commands answered at once overtake the scheduled answers of the commands before them (replies out of order), and a `reset` in the burst drops commands that were already accepted')
